@@ -1,3 +1,5 @@
 import Spec.Match
 import Spec.MatchDomain
 import Spec.MatchClasses
+import Spec.StoreInv
+import Spec.Ttl
